@@ -28,18 +28,22 @@ pub fn expand(line: &str, tab_cfg: &TabCfg) -> String {
     }
 }
 
-/// Remove `prefix` chars from `line`, then call `tabs::expand()`.
-pub fn remove_prefix_and_expand(prefix: usize, line: &str, tab_cfg: &TabCfg) -> String {
+/// The length in bytes of the first `prefix` chars of `line`.
+pub fn prefix_len(prefix: usize, line: &str) -> usize {
     let line_bytes = line.as_bytes();
     // The to-be-removed prefixes are almost always ascii +/- (or ++/ +/.. for merges) for
     // which grapheme clusters are not required.
     if line_bytes.len() >= prefix && line_bytes[..prefix].is_ascii() {
-        // Safety: slicing into the utf-8 line-str is ok, upto `prefix` only ascii was present.
-        expand(&line[prefix..], tab_cfg)
+        prefix
     } else {
-        let cut_line = line.graphemes(true).skip(prefix).collect::<String>();
-        expand(&cut_line, tab_cfg)
+        line.graphemes(true).take(prefix).map(str::len).sum()
     }
+}
+
+/// Remove `prefix` chars from `line`, then call `tabs::expand()`.
+pub fn remove_prefix_and_expand(prefix: usize, line: &str, tab_cfg: &TabCfg) -> String {
+    // Safety: slicing into the utf-8 line-str is ok, `prefix_len` ends at a char boundary.
+    expand(&line[prefix_len(prefix, line)..], tab_cfg)
 }
 
 #[cfg(test)]
